@@ -29,7 +29,8 @@ def slug(s):
 
 def run_native(script, args, timeout):
     """run a helper under the repository's own interpreter (numpy / sympy / pytket live there)"""
-    env = dict(os.environ, PYTHONPATH=REPO + os.pathsep + HERE, MPLBACKEND='Agg', PYTHONHASHSEED='0')
+    env = dict(os.environ, PYTHONPATH=REPO + os.pathsep + HERE, MPLBACKEND='Agg', PYTHONHASHSEED='0',
+               OMP_NUM_THREADS='1', OPENBLAS_NUM_THREADS='1', MKL_NUM_THREADS='1')   # drivers shard over processes
     env.pop('DISCOPY_VERIF', None)
     t0 = time.time()
     try:
